@@ -365,7 +365,7 @@ func errDisciplineSeen(c *Check) {
 }
 
 // e1Floor: number of error-producing steps seen in each property's functions on the reference tree, halved (behaviour-preserving restructuring moves steps between functions; the floor only guards against a vacuous pass).
-var e1Floor = map[string]int{"C01": 19, "C02": 14, "C03": 26, "C04": 20, "C05": 13, "C06": 23, "C07": 2, "C09": 12, "C10": 18, "C11": 33, "C12": 1, "C13": 3, "C14": 11, "C15": 5, "C17": 4, "C18": 9, "C20": 10}
+var e1Floor = map[string]int{"C01": 19, "C02": 14, "C03": 26, "C04": 20, "C05": 13, "C06": 23, "C07": 2, "C09": 12, "C10": 18, "C11": 33, "C13": 3, "C14": 11, "C15": 5, "C17": 4, "C18": 9, "C20": 10}
 
 
 // readsObjReal: node n uses variable o other than as an assignment target and other than in a comparison with nil.
